@@ -195,9 +195,10 @@ func PuttyPPK(info Info, data []byte) (Info, error) {
 	}
 	info.Attributes = puttyPublicKeyAttributes(pub)
 	info.Attributes = append(info.Attributes, Attribute{"Encryption", string(k.Encryption)})
-	if k.Encryption != ppk.NoEncryption {
+	// only version 3 files carry Argon2 parameters; Argon2-Memory is stored in KiB
+	if k.Encryption != ppk.NoEncryption && k.KeyDerivation != "" {
 		info.Attributes = append(info.Attributes,
-			Attribute{"KDF", fmt.Sprintf("%s (%d passes, %d MB, parallelism: %d)",
+			Attribute{"KDF", fmt.Sprintf("%s (%d passes, %d KiB, parallelism: %d)",
 				k.KeyDerivation, k.Argon2Passes, k.Argon2Memory, k.Argon2Parallelism)})
 	}
 
